@@ -501,6 +501,7 @@ theorem step_trans {st : State} {op : Op} (hwf : op.WF = true) : Trans st (step 
   | len => exact Trans.same
   | items => exact Trans.same
   | reopen => exact Trans.same
+  | iter => exact Trans.same
 
 theorem step_inv {st : State} {op : Op} (hwf : op.WF = true) (hinv : Inv st) : Inv (step st op).1 :=
   (step_trans hwf).inv hinv
